@@ -1,5 +1,6 @@
 import Dbg.Lemmas.Assemble
 import Dbg.Lemmas.FilterSym
+import Dbg.Lemmas.NodeExts
 /-! # C01 — Compressed graph is a lossless partition of the input k-mer set
 
 Theorems about the model `Compress.compressKmersC` of `compress_kmers_with_hash` (the table is listed in the hash map's
@@ -65,18 +66,6 @@ theorem C01_nodes_are_id_paths {T : Table D} {K : Nat} {st : Bool} {join : D →
   obtain ⟨out, h1, h2, h3⟩ := compressLoopC_spec (join := join) reduce wf hes (List.range T.length) (List.range T.length)
     (fun i hi => List.mem_range.mp hi)
   exact ⟨out, h1, h2, fun x hx => (h3 x hx).1⟩
-
-/-- consecutive entries of a walk are joined by links -/
-def LinkedFrom (link : Walk.Link) : Nat → Dir → List (Nat × Dir) → Prop
-  | _, _, [] => True
-  | x, d, (y, d') :: rest => link x d = some (y, d') ∧ LinkedFrom link y d' rest
-
-theorem walk_linked (link : Walk.Link) (avail : List Nat) (x : Nat) (d : Dir) :
-    LinkedFrom link x d (Walk.walk link avail x d).1 := by
-  fun_induction Walk.walk link avail x d with
-  | case1 avail x d y d' hl hy r ih => exact ⟨hl, ih⟩
-  | case2 avail x d y d' hl hy => trivial
-  | case3 avail x d hl => trivial
 
 /-- **C01 (recorded steps).** Every step between consecutive k-mers of a node — along the left path and along the
     right path of `build_node` — is a good link: the k-mer being left records exactly one extension on that side
